@@ -325,6 +325,14 @@ def invariant_obligations(ctx, facts, rule=None):
             okeq = True
         if et[0] == "call" and et[1] == "<std::cmp::Ordering as std::cmp::PartialEq>::eq" and len(et[2]) == 2:
             okeq = okeq or (cmp_term(et[2][0]) and is_equal_const(et[2][1])) or (cmp_term(et[2][1]) and is_equal_const(et[2][0]))
+        if not okeq and et[0] == "phi":
+            # partial_cmp(..).is_some_and(Ordering::is_eq) expanded: None -> false, Some(o) -> o.is_eq()
+            mem = list(et[1])
+            falses = [m for m in mem if m == ("const", False)]
+            rest = [m for m in mem if m != ("const", False)]
+            if falses and len(rest) == 1:
+                v = rest[0]
+                okeq = v[0] == "call" and v[1] == "std::cmp::Ordering::is_eq" and ((v[2][0][0] == "some" and v[2][0][1][0] == "call" and v[2][0][1][1] in (PC, "std::cmp::PartialOrd::partial_cmp") and v[2][0][1][2] == (("arg", 1), ("arg", 2))) or cmp_term(v[2][0]))
         if not okeq:
             # matches!(self.partial_cmp(other), Some(Ordering::Equal)) and its spellings: true exactly on the path where the
             # comparator returned Some(Equal)
